@@ -205,6 +205,49 @@ fn first_ident_in(tt: &TokenTable, focus: (usize, usize)) -> Option<(usize, usiz
         .map(|(a, b, _)| (*a, *b))
 }
 
+fn top_level_name_count(text: &str, name: &str) -> usize {
+    use syntax::ast::{self, AstNode};
+    let parse = syntax::parse_module(text);
+    let mut n = 0;
+    for st in parse.root().statements() {
+        match st {
+            ast::ModuleStatement::Function(f) => n += (f.name().and_then(|x| x.text()).as_deref() == Some(name)) as usize,
+            ast::ModuleStatement::ModuleConstant(c) => n += (c.name().and_then(|x| x.text()).as_deref() == Some(name)) as usize,
+            ast::ModuleStatement::TypeAlias(a) => n += (a.name().and_then(|x| x.text()).as_deref() == Some(name)) as usize,
+            ast::ModuleStatement::Adt(a) => {
+                n += (a.name().and_then(|x| x.text()).as_deref() == Some(name)) as usize;
+                // constructors live in the value namespace: count them separately
+                let mut vn = 0;
+                for v in a.constructors() {
+                    vn += (v.name().and_then(|x| x.text()).as_deref() == Some(name)) as usize;
+                }
+                if vn > 0 {
+                    // a constructor named like its own type is fine; several constructors of one name are not
+                    n = n.max(count_ctors(&parse.root(), name));
+                }
+            }
+            ast::ModuleStatement::Import(_) => {}
+        }
+        let _ = st_dummy();
+    }
+    n
+}
+
+fn st_dummy() {}
+
+fn count_ctors(root: &syntax::ast::SourceFile, name: &str) -> usize {
+    use syntax::ast;
+    let mut n = 0;
+    for st in root.statements() {
+        if let ast::ModuleStatement::Adt(a) = st {
+            for v in a.constructors() {
+                n += (v.name().and_then(|x| x.text()).as_deref() == Some(name)) as usize;
+            }
+        }
+    }
+    n
+}
+
 fn run_c06_case(rep: &mut Report, files: &[(String, String)], origin: &str, replay: serde_json::Value) {
     let loaded = ws::load_single(files);
     let an = loaded.host.snapshot();
@@ -232,6 +275,12 @@ fn run_c06_case(rep: &mut Report, files: &[(String, String)], origin: &str, repl
             continue;
         };
         let name = loaded.text(tfile)[own.0..own.1].to_string();
+        // Duplicate top-level definitions of one name are errors in Gleam and have no
+        // binding semantics (the later one wins in glas): not judged.
+        if top_level_name_count(loaded.text(tfile), &name) >= 2 {
+            rep.count("targets_with_duplicate_definitions_not_judged", 1);
+            continue;
+        }
         // S_D
         let mut set: BTreeSet<(u32, usize, usize)> = BTreeSet::new();
         set.insert((target.file, own.0, own.1));
